@@ -304,14 +304,22 @@ func checkCLI(c CLICase) (CLIOutcome, error) {
 				if op.Via == 2 {
 					inEnv = (op.Order + 1) % 3
 				}
-				sb.WriteFile("atlas.hcl", fmt.Sprintf("env \"x\" {\n  migration {\n    exec_order = %s\n  }\n}\n", []string{"LINEAR", "LINEAR_SKIP", "NON_LINEAR"}[inEnv]))
+				// the baseline travels the same way: in the env only, or on the command line against another one in the env
+				bl := ""
+				switch {
+				case op.Baseline != "" && op.Via == 1:
+					bl = fmt.Sprintf("    baseline = %q\n", op.Baseline)
+				case op.Baseline != "" && op.Via == 2:
+					bl = "    baseline = \"77\"\n"
+				}
+				sb.WriteFile("atlas.hcl", fmt.Sprintf("env \"x\" {\n  migration {\n    exec_order = %s\n%s  }\n}\n", []string{"LINEAR", "LINEAR_SKIP", "NON_LINEAR"}[inEnv], bl))
 				args = append(args, "--env", "x", "-c", "file://atlas.hcl")
 				out.Classes = append(out.Classes, fmt.Sprintf("cli/apply/exec-order-via=%s", []string{"flag", "env", "flag-over-env"}[op.Via]))
 			}
 			if op.Allow {
 				args = append(args, "--allow-dirty")
 			}
-			if op.Baseline != "" {
+			if op.Baseline != "" && op.Via != 1 {
 				args = append(args, "--baseline", op.Baseline)
 			}
 			if op.N > 0 {
